@@ -155,10 +155,11 @@ def run(prop, tier, seed, known):
                 ei, ep = near(kk_)
             elif mode_ < 0.6:
                 # onsets on a 1/32 s lattice (not multiples of 1e-4): the distance is rounded, never the onsets themselves
+                # (nor the offsets: durations of 10/32 s with ratio 0.2 put the offset tolerance at 2/32 s, a distance whose end points round differently)
                 def lat(k):
                     iv = [[rng.randint(0, 16) / 32.0, 0.0] for _ in range(k)]
                     for x in iv:
-                        x[1] = x[0] + 1.0
+                        x[1] = x[0] + rng.choice([1.0, 10 / 32.0, 10 / 32.0, 12 / 32.0, 20 / 32.0])
                     return np.array(iv, dtype=float).reshape(-1, 2), np.array([440.0] * k)
                 ri, rp = lat(rng.randint(1, 3))
                 ei, ep = lat(rng.randint(1, 3))
@@ -172,6 +173,7 @@ def run(prop, tier, seed, known):
                 ot, omin = 0.05, rng.choice([0.05, 0.2])
             elif 0.45 <= mode_ < 0.6:
                 ot = 1.0 / 16
+                ratio, omin = rng.choice([None, 0.2, 0.2, 0.25, 0.5]), rng.choice([0.05, 1.0 / 32])
             cmp = (lambda a, b: a < b) if strict else (lambda a, b: a <= b)
             rd = lambda x: round(x, 4)
             on = lambda i, j: cmp(rd(abs(ri[i, 0] - ei[j, 0])), ot)
